@@ -149,12 +149,15 @@ impl<T, N: ArrayLength> Iterator for GenericArrayIter<T, N> {
     fn nth(&mut self, n: usize) -> Option<T> {
         // First consume values prior to the nth.
         let next_index = self.index + cmp::min(n, self.len());
+        let skipped = self.index..next_index;
+
+        // Give up the skipped range before dropping it, so that a panicking
+        // destructor cannot lead to a second drop when the iterator is dropped.
+        self.index = next_index;
 
         unsafe {
-            ptr::drop_in_place(self.array.get_unchecked_mut(self.index..next_index));
+            ptr::drop_in_place(self.array.get_unchecked_mut(skipped));
         }
-
-        self.index = next_index;
 
         self.next()
     }
@@ -209,12 +212,14 @@ impl<T, N: ArrayLength> DoubleEndedIterator for GenericArrayIter<T, N> {
 
     fn nth_back(&mut self, n: usize) -> Option<T> {
         let next_back = self.index_back - cmp::min(n, self.len());
+        let skipped = next_back..self.index_back;
+
+        // Same as `nth`: give up the skipped range before dropping it
+        self.index_back = next_back;
 
         unsafe {
-            ptr::drop_in_place(self.array.get_unchecked_mut(next_back..self.index_back));
+            ptr::drop_in_place(self.array.get_unchecked_mut(skipped));
         }
-
-        self.index_back = next_back;
 
         self.next_back()
     }
